@@ -75,14 +75,17 @@ def _is_series_equal(s1, s2):
         s1 = s1.astype("float64")
     if not pd.api.types.is_float_dtype(s2):
         s2 = s2.astype("float64")
-    if pd.api.types.is_numeric_dtype(s1.index) and not pd.api.types.is_float_dtype(
-        s1.index
-    ):
-        s1.index = s1.index.astype("float64")
-    if pd.api.types.is_numeric_dtype(s2.index) and not pd.api.types.is_float_dtype(
-        s2.index
-    ):
-        s2.index = s2.index.astype("float64")
+    if s1.index.dtype != s2.index.dtype:
+        # labels of different numeric types (integers against floats) are compared as floats;
+        # set_axis returns a new Series, the operands' own data is left alone
+        if pd.api.types.is_numeric_dtype(s1.index) and not pd.api.types.is_float_dtype(
+            s1.index
+        ):
+            s1 = s1.set_axis(s1.index.astype("float64"))
+        if pd.api.types.is_numeric_dtype(s2.index) and not pd.api.types.is_float_dtype(
+            s2.index
+        ):
+            s2 = s2.set_axis(s2.index.astype("float64"))
     return pd.Series.equals(s1, s2)
 
 
